@@ -2,8 +2,11 @@ import Clikit.Drv.Util
 import Clikit.Drv.C09
 import Clikit.Model.History
 import Clikit.Model.AppState
-/-! Driver entries for C17: `c17.help_protocol`, `c17.styles`, `c17.styles_wf`, and `c17.app_hist`: a history of
-runs of the stateful composed application model (`AppState.runAppS`) on ONE application object. -/
+import Clikit.Model.IndentShared
+/-! Driver entries for C17: `c17.help_protocol`, `c17.styles`, `c17.styles_wf`, `c17.app_hist`: a history of
+runs of the stateful composed application model (`AppState.runAppS`) on ONE application object, and
+`c17.render_hist`: a history of renderings and indentation scopes on ONE I/O whose two outputs are two objects or
+one (`Model/IndentShared.lean`). -/
 namespace Clikit.Drv.C17
 open Lean Clikit.Drv Clikit.History
 
@@ -61,8 +64,57 @@ def histRuns (env : Clikit.App.Env) (cv : Clikit.Parser.Conv) (app : List Clikit
       ("restored", .bool (paths.all fun p => (lenEntry r.2 p).current == (lenEntry r.2 p).configured))]
       :: histRuns env cv app hs paths r.2 rest
 
+
+section RenderHist
+open Clikit.IndentShared
+
+def rTargetOf (s : String) : R Target :=
+  match s with
+  | "io" => .ok .io
+  | "out" => .ok .out
+  | "err" => .ok .err
+  | _ => .error s!"unknown scope target {s}"
+
+mutual
+partial def rStmtOf (j : Json) : R Prog := do
+  match fOpt j "render" with
+  | some c => return .render (← asNat c)
+  | none =>
+  match fOpt j "scope" with
+  | some (.str t) => return .scope (← rTargetOf t) (← fBool j "inc") (← fNat j "n") (← rProgOf (← fArr j "body").toList)
+  | some _ => throw "field scope: string expected"
+  | none =>
+  match fOpt j "try" with
+  | some (.arr a) => return .attempt (← rProgOf a.toList)
+  | some _ => throw "field try: array expected"
+  | none =>
+  match fOpt j "raise" with
+  | some _ => return .raise
+  | none => throw s!"unknown statement {j.compress}"
+
+partial def rProgOf (l : List Json) : R Prog :=
+  match l with
+  | [] => .ok .skip
+  | s :: r => do return .seq (← rStmtOf s) (← rProgOf r)
+end
+
+end RenderHist
+
 def handle (m : String) (j : Json) : Option (R Json) :=
   match m with
+  | "c17.render_hist" => some do
+      -- `out`, `err`: the numbers (0 / 1) of the Output OBJECTS behind the two channels of the I/O (equal: one
+      -- object), `base`: the indentation the objects 0 and 1 have at the beginning
+      let io : Clikit.IndentShared.IORefs := { out := ← fNat j "out", err := ← fNat j "err" }
+      if io.out > 1 || io.err > 1 then throw "out / err: object number 0 or 1 expected"
+      let base ← (← fArr j "base").toList.mapM asNat
+      let h ← match base with
+        | [a, b] => pure (Clikit.IndentShared.heapOf a b)
+        | _ => throw "base: [indentation of object 0, of object 1] expected"
+      let prog ← rProgOf (← fArr j "steps").toList
+      let (w, h', r) := Clikit.IndentShared.exec io prog h
+      return Json.mkObj [("seen", jList (fun (x : Clikit.IndentShared.Seen) => jList jNat [x.1, x.2.1, x.2.2]) w),
+                         ("indent", jList jNat [h' io.out, h' io.err]), ("raised", .bool r)]
   | "c17.app_hist" => some do
       -- the command tree, the leniency settings (`raw`) and the installed parser objects (`parsers`) read from the
       -- REAL application as configured; every abstract handler returns 0; the error report renders
